@@ -15,15 +15,18 @@ theorem uid_noLF (fn : Bytes) (h : LF ∉ fn) : LF ∉ uidOf fn := by
   exact h ((List.drop_sublist 4 fn).subset ((List.takeWhile_sublist _).subset hh))
 
 /-- the text after the message number in a listing line -/
-def listText (uidl : Bool) (r : RMsg) : Bytes := if uidl then uidOfPath r.path else sizeText r
+def listText : Bool → RMsg → Bytes
+  | true => fun r => uidOfPath r.path
+  | false => sizeText
 
 theorem listLine_eq (i : Nat) (m : Msg) (r : RMsg) (uidl : Bool) (hp : r.path = m.fn) (hs : m.size = r.data.length) :
     listLine i m uidl = (fmtNat (i + 1) ++ [SP] ++ listText uidl r) ++ [CR, LF] := by
-  unfold listLine listText sizeText uidOfPath uidOf
-  rw [hp, hs]
+  cases uidl
+  · simp [listLine, listText, sizeText, hs]
+  · simp only [listLine, listText, uidOfPath, uidOf, hp]
+    rfl
 
 theorem listText_noLF (uidl : Bool) (r : RMsg) (h : LF ∉ r.path) : LF ∉ listText uidl r := by
-  unfold listText
   cases uidl
   · exact fmtNat_noLF _
   · exact uid_noLF r.path h
